@@ -246,11 +246,26 @@ def run(ctx):
                     w.skip(n)
                     model += '0' * n
                 else:
-                    nb = rng.randint(1, 8)
+                    nb = rng.choice([0, 1, 1, 2, 3, 4, 5, 6, 7, 8, 8])
                     ln = rng.randint(0, 10)
                     raw = bytes(rng.choice(b'abc XYZ\xe9\xff\x00') for _ in range(ln))
                     given = raw.decode('latin-1') if rng.random() < 0.4 else raw
-                    w.write_bytes(given, nb)
+                    how = rng.random()
+                    if how < 0.1:
+                        # no width given: exactly the value's octets
+                        w.write_bytes(given)
+                        nb = ln
+                        ctx.count('bytes_without_width')
+                    elif how < 0.3:
+                        # through the generic entry point, width in bits (a width below one octet holds no octet at all)
+                        extra = rng.randint(0, 7) if nb == 0 else 0
+                        w.write(given, 'bytes', 8 * nb + extra)
+                        if nb == 0:
+                            ctx.count('bytes_zero_width')
+                    else:
+                        w.write_bytes(given, nb)
+                        if nb == 0:
+                            ctx.count('bytes_zero_width')
                     v = raw[:nb].ljust(nb, b' ')
                     n = 8 * nb
                     model += ''.join(ubits(c, 8) for c in v)
